@@ -73,8 +73,12 @@ def run_real(em, rec, via=None):
     import zlib
     from bob.learn.em.gmm import m_step as module_m_step
     from bob.learn.em.gmm import map_gmm_m_step, ml_gmm_m_step
+    hbits = zlib.crc32(repr(scenario_key(rec)).encode())
     if via is None:
-        via = ("function", "machine")[zlib.crc32(repr(scenario_key(rec)).encode()) % 2]
+        via = ("function", "machine")[hbits % 2]
+    # every second machine-level replay: the trainer kind is set through the estimator protocol AFTER construction
+    # (set_params / attribute assignment), the machine having been built as the other kind
+    switched = via == "machine" and (hbits // 2) % 2 == 1
     C = 2
     cthr = float(CTHR)
     vfl = float(fr(rec["vfl"]))
@@ -84,7 +88,16 @@ def run_real(em, rec, via=None):
     st.sum_px = col(rec["px"])
     st.sum_pxx = col(rec["pxx"])
     if rec["kind"] == "ml":
-        m = em.GMMMachine(C, weights=vec(rec["w0"]), mean_var_update_threshold=cthr)
+        if switched:
+            other = em.GMMMachine(C)
+            other.means, other.variances = col(rec["mu0"]) + 7.0, col(rec["var0"]) * 3.0
+            m = em.GMMMachine(C, trainer="map", ubm=other, weights=vec(rec["w0"]), mean_var_update_threshold=cthr)
+            if hbits % 3:
+                m.set_params(trainer="ml")
+            else:
+                m.trainer = "ml"
+        else:
+            m = em.GMMMachine(C, weights=vec(rec["w0"]), mean_var_update_threshold=cthr)
         m.variance_thresholds = vfl
         m.means = col(rec["mu0"])
         m.variances = col(rec["var0"])
@@ -103,10 +116,15 @@ def run_real(em, rec, via=None):
         if via == "machine":
             # the same step through the estimator's own configuration: the module-level m_step reads the switches,
             # the relevance factor / fixed ratio and the count threshold from the machine
-            m = em.GMMMachine(C, trainer="map", ubm=prior, mean_var_update_threshold=cthr,
+            m = em.GMMMachine(C, trainer="ml" if switched else "map", ubm=prior, mean_var_update_threshold=cthr,
                               update_means=rec["um"], update_variances=rec["uv"], update_weights=rec["uw"],
                               map_relevance_factor=val if rec["rel"]["reynolds"] else None,
                               map_alpha=0.5 if rec["rel"]["reynolds"] else val)
+            if switched:
+                if hbits % 3:
+                    m.set_params(trainer="map")
+                else:
+                    m.trainer = "map"
             m.means = col(rec["cur"])
             module_m_step([st, em.GMMStats(C, 1)], m)
         else:
